@@ -311,10 +311,14 @@ class Check(object):
         ev = dict(property_id=self.prop, tier=self.tier, seed=self.seed, level=level, coverage=cov,
                   assumptions=self.assumptions, wall_s=round(wall, 2),
                   violations=len(inputs) + (1 if ties and not inputs else 0))
+        seen_known = {}
+        for k, what in self.known_hits:
+            seen_known.setdefault(k.get('id', k.get('digest', '')), [k, 0])[1] += 1
+        for kid, (k, n) in seen_known.items():
+            print('KNOWN-FINDING: property=%s %s (%s; %d inputs of this run)' % (self.prop, k.get('what', ''), kid, n))
+        cov['known_findings_hit'] = {kid: n for kid, (k, n) in seen_known.items()}
         json.dump(ev, open(os.path.join(ROOT, 'evidence', self.prop + '.json'), 'w'), indent=1,
                   ensure_ascii=True, default=str)
-        for k, what in self.known_hits[:20]:
-            print('KNOWN-FINDING: property=%s %s (%s)' % (self.prop, k.get('what', ''), k.get('id', '')))
         rc = 0
         if inputs:
             seen = set()
